@@ -209,6 +209,13 @@ def rule_diagonal(ctx, res):
                 if field_chain(a)[-1:] != ['0'] or True:
                     pass
             ca = [x for x in term_walk(a) if isinstance(x, tuple) and x and x[0] == 'field' and x[2] in ('request_type', 'request', 'response', 'error')]
+            # normal form (`ok_or(..)?`, `let .. else`, `match` all read as a match on the Option field itself)
+            a0 = strip_transparent(a)
+            fc0 = field_chain(a0)
+            if is_param(root_of(a0)) and fc0 and fc0[-1] in ('request_type', 'request', 'response', 'error'):
+                return ('has_' + fc0[-1], option_is_some(b2))
+            if is_param(root_of(a0)) and len(fc0) >= 2 and fc0[-1] == '0' and fc0[-2] in ('request_type', 'request'):
+                return ('q', dom(b2, rt)) if fc0[-2] == 'request_type' else ('a', dom(b2, rq))
             if a[0] == 'call' and a[1].endswith('::branch'):
                 if agg_variant(a[2][0]) == 'Err':
                     return 'infeasible' if b2 == 0 else None   # `Err(..)?` always breaks
@@ -227,7 +234,7 @@ def rule_diagonal(ctx, res):
         if agg_variant(r) == 'Ok':
             body = r[2].get('0')[2].get('body')
             return 'Ok:' + str(agg_variant(body))
-        return 'Err'
+        return 'Err'      # (a plain Err or `?` on one)
 
     tab = Table.build(s.complete_paths(), classify, outcome)
 
@@ -307,6 +314,15 @@ def rule_compact(ctx, res):
     n_err = 0
     for p in s.complete_paths():
         rem = [literal(c)[3] for c in p.conds if literal(c)[0] == 'bool' and literal(c)[1][0] == 'call' and literal(c)[1][1].endswith('::is_empty') and find_calls(literal(c)[1], 'remainder')]
+        # the same test as `buffer.len() % entry_len == 0`
+        for c in p.conds:
+            l = literal(c)
+            if l[0] == 'eq' and l[3] is not None:
+                for x, y in ((l[1], l[2]), (l[2], l[1])):
+                    if isinstance(x, tuple) and x and x[0] == 'bin' and x[1] == 'Rem' and find_calls(x[2], '::len') and isinstance(y, tuple) and term_int(y) == 0:
+                        dv = strip_transparent(x[3])
+                        if dv[0] == 'bin' and dv[1].replace('WithOverflow', '') == 'Add' and term_int(dv[2]) == 20:
+                            rem.append(bool(l[3]))
         ce = find_calls(p.ret, 'chunks_exact') or [e for e in p.effects if e[0] == 'call' and e[1] and e[1].endswith('chunks_exact')]
         if not rem:
             if agg_variant(p.ret) == 'Ok':
@@ -396,14 +412,25 @@ def rule_compact(ctx, res):
     ds.run()
     fam = {}
     for p in ds.complete_paths():
-        lens = [(term_int(literal(c)[2]), literal(c)[3]) for c in p.conds if literal(c)[0] == 'eq' and find_calls(literal(c)[1], '::len')]
+        # the length the path has established: `len == 6` (comparison) or the arm `6 =>` of a match on the length
+        lens = []
+        for c in p.conds:
+            l = literal(c)
+            if l[0] == 'eq' and find_calls(l[1], '::len'):
+                lens.append((term_int(l[2]), l[3]))
+            elif l[0] == 'int' and isinstance(l[1], tuple) and l[1][0] == 'call' and l[1][1].split('::')[-1] == 'len' and isinstance(l[2], int):
+                lens.append((l[2], True))
         if agg_variant(p.ret) == 'Some':
             v = p.ret[2].get('0')
             be = find_calls(v, 'from_be_bytes')
             rngs = [x for x in term_walk(v) if isinstance(x, tuple) and x and x[0] == 'agg' and x[1].startswith('std::ops::Range')]
             ends = sorted({term_int(x[2].get('end')) for x in rngs if x[2].get('end') is not None} | {term_int(x[2].get('start')) for x in rngs if x[2].get('start') is not None})
+            # .. or `split_at(k)`: address = first k bytes, port = the rest
+            for x in term_walk(v):
+                if isinstance(x, tuple) and x and x[0] == 'call' and x[1].split('::')[-1] == 'split_at' and term_int(strip_transparent(x[2][1])) is not None:
+                    ends = sorted(set(ends) | {term_int(strip_transparent(x[2][1]))})
             true_len = [l for l, t in lens if t]
-            fam[true_len[-1] if true_len else None] = (bool(be), ends, 'Ipv4Addr' in str(v), 'Ipv6Addr' in str(v))
+            fam[true_len[-1] if true_len else None] = (bool(be), ends, 'Ipv4Addr' in str(v) or '[u8; 4]' in str(v), 'Ipv6Addr' in str(v) or '[u8; 16]' in str(v))
     res.check(fam.get(6) == (True, [4], True, False) and fam.get(18) == (True, [16], False, True) and set(fam) == {6, 18}, 'TABLE', db.path,
               'compact address: 6 bytes -> IPv4 (4) + big-endian port, 18 bytes -> IPv6 (16) + big-endian port, other lengths rejected', detail=str(fam))
     eb = ctx.body('compact::encode_socket_addr')
@@ -411,8 +438,9 @@ def rule_compact(ctx, res):
     es = Sym(eb)
     es.run()
     oke = bool(es.complete_paths())
+    APPEND = ('extend', 'extend_from_slice')
     for p in es.complete_paths():
-        ext = [e for e in p.effects if e[0] == 'call' and e[1] and e[1].endswith('::extend')]
+        ext = [e for e in p.effects if e[0] == 'call' and e[1] and e[1].split('::')[-1] in APPEND]
         if len(ext) != 2 or not find_calls(ext[0][2][1], '::octets') or not find_calls(ext[1][2][1], 'to_be_bytes') or not find_calls(ext[1][2][1], '::port'):
             oke = False
     res.check(oke, 'TABLE', eb.path, 'compact address = address octets followed by the big-endian port (sibling of from_be_bytes)')
@@ -437,7 +465,7 @@ def rule_compact(ctx, res):
         raise lib.Lost('encode_socket_addr: unrecognised condition %s %s' % (rel, fmt(a)))
 
     def outcome_e(p):
-        ext = [e for e in p.effects if e[0] == 'call' and e[1] and e[1].endswith('::extend')]
+        ext = [e for e in p.effects if e[0] == 'call' and e[1] and e[1].split('::')[-1] in ('extend', 'extend_from_slice')]
         if not ext:
             return 'no-octets'
         oc = find_calls(ext[0][2][1], '::octets')
@@ -487,7 +515,7 @@ def rule_compact(ctx, res):
         if agg_variant(p.ret) != 'Ok':
             continue
         n_ok += 1
-        ti = find_calls(p.ret, 'try_into')
+        ti = find_calls(p.ret, 'try_into') or find_calls(p.ret, 'try_from')
         good = False
         if len(ti) == 1:
             x = strip_transparent(ti[0][2][0])
@@ -513,7 +541,29 @@ def rule_port_and_want(ctx, res):
     s.run()
     ok = bool(s.paths)
     seen = False
+    states = {}
+
+    def field_value(t, state):
+        """value of a Wrapper field when *port is `state`: 'payload' | int | '?'"""
+        t = strip_transparent(t)
+        k = term_int(t)
+        if k is not None:
+            return k
+        if t[0] == 'call' and t[1].endswith('::is_none') and is_param(strip_transparent(t[2][0]), 'port'):
+            return int(state == 'None')
+        if t[0] == 'call' and t[1].endswith('::is_some') and is_param(strip_transparent(t[2][0]), 'port'):
+            return int(state == 'Some')
+        if t[0] == 'call' and t[1].endswith('::unwrap_or') and is_param(strip_transparent(t[2][0]), 'port'):
+            return 'payload' if state == 'Some' else term_int(t[2][1])
+        if t[0] == 'field' and t[2] == '0' and isinstance(t[1], tuple) and t[1][0] == 'downcast' and t[1][2] == 'Some' and is_param(strip_transparent(t[1][1]), 'port'):
+            return 'payload' if state == 'Some' else '?'
+        return '?'
     for p in s.paths:
+        st = None
+        for c in p.conds:
+            rel, a, b2, truth = literal(c)
+            if rel == 'variant' and is_param(strip_transparent(a), 'port'):
+                st = 'Some' if option_is_some(b2) else 'None'
         for e in p.effects:
             if e[0] == 'call' and e[1] and e[1].endswith('Wrapper>::serialize') or (e[0] == 'call' and e[1] and 'Wrapper' in e[1] and e[1].endswith('::serialize')):
                 w = e[2][0]
@@ -521,12 +571,9 @@ def rule_port_and_want(ctx, res):
                     w = w[1]
                 if w[0] == 'agg':
                     seen = True
-                    ip = strip_transparent(w[2].get('implied_port'))
-                    po = strip_transparent(w[2].get('port'))
-                    if not (ip[0] == 'call' and ip[1].endswith('::is_none') and is_param(strip_transparent(ip[2][0]), 'port')):
-                        ok = False
-                    if not (po[0] == 'call' and po[1].endswith('::unwrap_or') and term_int(po[2][1]) == 0 and is_param(strip_transparent(po[2][0]), 'port')):
-                        ok = False
+                    for state in ([st] if st else ['Some', 'None']):
+                        states.setdefault(state, set()).add((field_value(w[2].get('implied_port'), state), field_value(w[2].get('port'), state)))
+    ok = states == {'Some': {(0, 'payload')}, 'None': {(1, 0)}}
     res.check(ok and seen, 'TABLE', b.path, 'encode: no port -> implied_port = 1 with port 0; Some(p) -> port p (implied_port omitted because false)')
     d = ctx.body('message::port::deserialize')
     res.touch(d)
@@ -548,7 +595,9 @@ def rule_port_and_want(ctx, res):
     for p in dbs.complete_paths():
         if agg_variant(p.ret) == 'Ok':
             rel, a, b2, truth = literal((p.ret[2].get('0'), ('not', (0,)), -1))
-            okb = rel == 'lt' and term_int(a) == 0 and truth is True
+            # `num > 0` or `num != 0` (the same thing for an unsigned integer)
+            okb = (rel == 'lt' and term_int(a) == 0 and truth is True) or \
+                  (rel == 'eq' and truth is False and (term_int(a) == 0 or (isinstance(b2, tuple) and term_int(b2) == 0)))
     res.check(okb, 'TABLE', db.path, 'implied_port is an integer; non-zero means set')
     fb = ctx.body('message::port::is_false')
     fs = Sym(fb)
